@@ -5,16 +5,18 @@ PROOF          coq/props/Prop_C06.v  (model: coq/model/Options.v over the tables
                theorems compute with are today's)
 CORRESPONDENCE recording wrappers around emd.sift.get_next_imf / interp_envelope / get_padded_extrema (module attributes
                of the imported package, installed by this harness before any Pool exists; forked workers inherit them;
-               nothing is added to the repository) write, per process, every distinct (stage, bound arguments) they see.
-               The full grid variant(6) x option case(16: nothing, empty dicts, one non-default value per option, all at
-               once) x route(keyword dicts, SiftConfig unpacking, get_func partial) x nprocesses{1,3} is run and the SET of
-               records is compared exactly with the model's calls (Options.calls_c under vm_compute).
+               nothing is added to the repository) write, per process, every distinct (stage, bound arguments) they see
+               while an IMF is being extracted.  The full grid variant(6) x option case(14; 16 in the thorough tier:
+               nothing, empty dicts, one non-default value per option, all at once) x route(keyword dicts, SiftConfig
+               unpacking, get_func partial) x nprocesses is run in fresh driver interpreters and the SET of records of
+               every run is compared exactly with the model's calls (hashes of Options.calls_h under vm_compute; the
+               records themselves, Options.calls_c, are fetched for a report).  Ensembles take the sign-flipped second
+               sift when nprocesses > 1; mask_sift chooses its first mask by zero crossings / instantaneous frequency.
 ORACLE         on the implementation alone: every recorded call of the stage an option configures received the supplied
-               value, in every process; each stage was reached; and the output equals a pipeline assembled explicitly from
-               get_next_imf with the same options (classic, masked, second-layer variants).
+               value, in the calling process and in every worker; and the output equals a decomposition assembled by
+               hand from get_next_imf with the same options (classic, masked, both second-layer variants).
 """
 import functools
-import hashlib
 import inspect
 import json
 import os
@@ -279,14 +281,17 @@ def base_kwargs(variant, nproc, sig=0):
 
 
 # --------------------------------------------------------------------------- recording wrappers (harness side only)
-_T = {'dir': None, 'pid': None, 'seen': set()}
+_T = {'dir': None, 'pid': None, 'seen': set(), 'depth': 0}
 _SIGS = {}
 _ORIG = {}
 
 
 def _record(stage, args, kwargs):
+    """Envelope / extrema calls are recorded while an IMF is being extracted (inside get_next_imf) only:
+    spectra.frequency_transform, which get_mask_freqs uses for mask_freqs='if', computes amplitude envelopes of its own
+    with its own arguments - those are not stages of the sift."""
     d = _T['dir']
-    if d is None:
+    if d is None or (stage != 'G' and _T['depth'] == 0):
         return
     try:
         ba = _SIGS[stage].bind(*args, **kwargs)
@@ -324,7 +329,13 @@ def install():
             @functools.wraps(orig)
             def traced(*a, **k):
                 _record(stage, a, k)
-                return orig(*a, **k)
+                if stage != 'G':
+                    return orig(*a, **k)
+                _T['depth'] += 1
+                try:
+                    return orig(*a, **k)
+                finally:
+                    _T['depth'] -= 1
             return traced
         setattr(S, name, mk(stage, orig))
     return S
@@ -338,10 +349,6 @@ def read_trace(d, parent_pid):
         for ln in open(os.path.join(d, fn)):
             stage, mode, kw = json.loads(ln)
             code = SCODE.get((stage, mode), -1)
-            if code in (4, 7):
-                # mode='combined' / 'abs_peaks': amplitude normalisation inside spectra.frequency_transform (mask_freqs='if'),
-                # which has its own interp_method argument and is not a stage of the sift
-                continue
             k = json.dumps([code, kw])
             inw = pid != parent_pid
             if inw:
